@@ -574,8 +574,11 @@ class Context:
         :return: None.
         """
         # processes will be dealt in FAILED processing
-        status.state = SupvisorsInstanceStates.FAILED
-        self.export_status(status)
+        # NOTE: the notification is raised from a proxy thread, so the Supvisors instance may have been invalidated
+        #       in the meantime (STOPPED or ISOLATED)
+        if status.has_active_state():
+            status.state = SupvisorsInstanceStates.FAILED
+            self.export_status(status)
 
     def on_process_removed_event(self, status: SupvisorsInstanceStatus, event: Payload) -> None:
         """ Method called upon reception of a process removed event from the remote Supvisors instance.
